@@ -17,6 +17,7 @@ global size_of usize == 8;
 pub struct Objects { _p: u8 }
 pub uninterp spec fn total_bytes(o: Objects) -> nat;
 pub uninterp spec fn count(o: Objects) -> nat;
+pub uninterp spec fn holds_box<T>(o: Objects, p: GcBoxPtr<T>) -> bool;   // the heap owns the box p points to
 
 #[verifier::external_body]
 #[verifier::reject_recursive_types(T)]
@@ -24,10 +25,21 @@ pub struct GcBoxPtr<T> { p: core::marker::PhantomData<T> }
 #[verifier::external_body]
 #[verifier::reject_recursive_types(T)]
 pub struct PinnedBox<T> { p: core::marker::PhantomData<T> }
+// the GcBox<T> a pinned box holds: header (colour, root count) + data
+pub struct GcBoxS<T> { pub header: u64, pub data: T }
+impl<T> std::ops::Deref for PinnedBox<T> {
+    type Target = GcBoxS<T>;
+    #[verifier::external_body]
+    fn deref(&self) -> (r: &GcBoxS<T>) { unimplemented!() }
+}
 
 pub trait GcManaged { }
 
 pub uninterp spec fn spec_size_of<T>() -> nat;
+// size_of_val of an arbitrary value: NOT related to the payload size the sweep subtracts (size_of_val(&obj.data))
+pub uninterp spec fn spec_size_of_val<X>(x: X) -> nat;
+#[verifier::external_body]
+fn mem_size_of_val<X>(x: &X) -> (r: usize) ensures r as nat == spec_size_of_val::<X>(*x) { core::mem::size_of_val(x) }
 #[verifier::external_body]
 fn mem_size_of<T>() -> (r: usize) ensures r as nat == spec_size_of::<T>() { core::mem::size_of::<T>() }
 
@@ -38,12 +50,14 @@ impl Objects {
     #[verifier::external_body]
     fn push<T>(&mut self, b: PinnedBox<T>)
         ensures total_bytes(*final(self)) == total_bytes(*old(self)) + spec_size_of::<T>(), count(*final(self)) == count(*old(self)) + 1,
+            holds_box(*final(self), box_ptr(b)),
     { unimplemented!() }
 }
 
 // Box::pin(GcBox { colour: White, num_roots: 0, data }) and the raw pointer taken from it (unsafe code, trusted)
+pub uninterp spec fn box_ptr<T>(b: PinnedBox<T>) -> GcBoxPtr<T>;
 #[verifier::external_body]
-fn verif_new_box<T>(data: T) -> (r: (PinnedBox<T>, GcBoxPtr<T>)) { unimplemented!() }
+fn verif_new_box<T>(data: T) -> (r: (PinnedBox<T>, GcBoxPtr<T>)) ensures box_ptr(r.0) == r.1 { unimplemented!() }
 
 impl Heap {
     // accounting invariant; the bound keeps `bytes_allocated * 2` and `+= size` inside usize (machine-integer assumption)
@@ -99,6 +113,7 @@ impl Heap {
     //@  ensures final(self).collection_threshold == old(self).collection_threshold || final(self).collection_threshold == 2 * (final(self).bytes_allocated - spec_size_of::<T>())
     //@  ensures final(self).bytes_allocated <= old(self).bytes_allocated + spec_size_of::<T>()
     //@  ensures count(final(self).objects) <= count(old(self).objects) + 1
+    //@  ensures holds_box(final(self).objects, r)
     //@end
 }
 
